@@ -542,6 +542,82 @@ Definition ok_watch_cpu (seq : list Z) (l : list oitem) : bool :=
 Definition ok_watch_var (v0 : N) (seq : list N) (l : list oitem) : bool :=
   list_eqb N.eqb (ovar_values l) (nchanges_from v0 seq).
 
+(* ---------------------------------------------------------------- specification: -W cpu in the stream
+   Plain configuration without threshold, every call recorded, hooks >= 2 ns apart.  Hook by hook:
+     a cpu event is generated iff the value differs from the previous hook's (first hook: always) and
+     fewer than MAX_EVENT events were generated since the last EXIT was written;
+     it is stamped 1 ns before the hook and written right in front of the hook's record - the thread's
+     first event is stamped 1 ns after and written right behind the first ENTRY. *)
+Fixpoint wspec_go (es : list xev) (inited : bool) (prev : Z) (np : N) (stk : list N) : list oitem :=
+  match es with
+  | [] => []
+  | XEnter a t o :: r =>
+      let c := o_cpu o in
+      let gen := (negb inited || negb (prev =? c)%Z) && (np <? C17_MAX_EVENT) in
+      let w := OE (if inited then t - 1 else t + 1) C17_EVENT_ID_WATCH_CPU [cpu_word c] in
+      let rc := OR (t, UFTRACE_ENTRY, RECORD_MAGIC, N.of_nat (length stk), a) in
+      (if gen then (if inited then [w; rc] else [rc; w]) else [rc])
+      ++ wspec_go r true c (if gen then np + 1 else np) (a :: stk)
+  | XLeave t o :: r =>
+      match stk with
+      | [] => []
+      | a :: stk' =>
+          let c := o_cpu o in
+          let gen := (negb inited || negb (prev =? c)%Z) && (np <? C17_MAX_EVENT) in
+          let w := OE (t - 1) C17_EVENT_ID_WATCH_CPU [cpu_word c] in
+          (if gen then [w] else []) ++ [OR (t, UFTRACE_EXIT, RECORD_MAGIC, N.of_nat (length stk'), a)]
+          ++ wspec_go r true c 0 stk'
+      end
+  end.
+Definition wspec (es : list xev) : list oitem := wspec_go es false 0%Z 0 [].
+
+(* all histories of n calls (balanced words over Enter/Leave), canonical times 100, 100+gap, ..., function
+   numbers cycling over three functions, cpu observations from a second bit word *)
+Fixpoint bitlists (n : nat) : list (list bool) :=
+  match n with
+  | O => [[]]
+  | S m => flat_map (fun l => [true :: l; false :: l]) (bitlists m)
+  end.
+Fixpoint balanced (d : list bool) (open : nat) : bool :=
+  match d with
+  | [] => Nat.eqb open 0
+  | true :: r => balanced r (S open)
+  | false :: r => match open with O => false | S k => balanced r k end
+  end.
+Definition ocpu (b : bool) : oval :=
+  {| o_statm := [0; 0; 0]; o_pf := [0; 0]; o_cycle := [0; 0]; o_cache := [0; 0]; o_branch := [0; 0];
+     o_cpu := if b then 1%Z else 0%Z; o_var := 0 |}.
+Fixpoint hooks_of (d c : list bool) (t gap i : N) : list xev :=
+  match d, c with
+  | e :: dr, b :: cr =>
+      (if e then XEnter (256 * (i mod 3)) t (ocpu b) else XLeave t (ocpu b)) :: hooks_of dr cr (t + gap) gap (i + 1)
+  | _, _ => []
+  end.
+Definition wcfg_small (sh : shape) : xcfg :=
+  {| xb := plain 0 1024 1024 sh; read_of := fun _ => 0; wp_cpu := true; wp_var := false; pmu_ok := false;
+     fix_var := false; fix_drop := false |}.
+Definition small_case (sh : shape) (gap : N) (d c : list bool) : bool :=
+  let es := hooks_of d c 100 gap 0 in
+  let l := map oideal (xout (snd (xexec (wcfg_small sh) es xstart))) in
+  list_eqb oitem_eqb l (wspec es) && ok_times l.
+(* every history of exactly n calls, every change pattern of the cpu value, both shapes, gaps 2 and 3 *)
+Definition small_ok (n : nat) : bool :=
+  forallb (fun d => if balanced d 0
+                    then forallb (fun c => if small_case PG 2 d c then
+                                             if small_case CYG 2 d c then small_case PG 3 d c else false
+                                           else false)
+                                 (bitlists (2 * n))
+                    else true)
+          (bitlists (2 * n)).
+(* the same for one shape and gap *)
+Definition small_ok1 (n : nat) (sh : shape) (gap : N) : bool :=
+  forallb (fun d => if balanced d 0 then forallb (fun c => small_case sh gap d c) (bitlists (2 * n)) else true)
+          (bitlists (2 * n)).
+(* the chain of n nested calls (the only history in which more than MAX_EVENT events are pending) *)
+Definition chain (n : nat) : list bool := repeat true n ++ repeat false n.
+Definition chain_ok (n : nat) (sh : shape) (gap : N) : bool :=
+  forallb (fun c => small_case sh gap (chain n) c) (bitlists (2 * n)).
+
 (* ---------------------------------------------------------------- buffer-level model of the overlap
    guard of save_trigger_read (arguments and events share the 1024-byte frame buffer).
    The frame buffer: bytes [0, 4 + asz) hold the argument size word and the argument data when
